@@ -147,6 +147,10 @@ pub fn encodings(v: &Val) -> (Option<String>, String, usize, usize) {
             let j = b.build_level().snapshot_to_json().unwrap_or_default();
             (None, j, 30, 30)
         }
+        Val::Evolving { book, .. } => {
+            let j = book.build_level().snapshot_to_json().unwrap_or_default();
+            (None, j, 30, 30)
+        }
         Val::Stats(_) => {
             // reuse codec's construction through the text form of a fresh level's stats
             let l = PriceLevel::new(1);
@@ -356,11 +360,153 @@ pub fn eval(i: &Input, eps: &[EntryPoint], st: &mut Stats) -> Result<(), String>
     }
 }
 
+// ---------------------------------------------------------------------------------
+// huge inputs (tens of thousands of repeated tokens), each parsed in a child process so that a
+// stack overflow or abort is observed instead of killing the check
+
+#[derive(Clone, Debug, Hash, PartialEq, Eq, Serialize, Deserialize)]
+pub struct Huge {
+    pub base: Val,
+    pub json: bool,
+    pub token: u8,
+    pub count: u32,
+    pub at: u16,
+    pub cross: Option<u8>,
+}
+
+pub const HUGE_TOKENS: [&str; 14] = ["[", "]", "[[", "(", "x", "é", ";a=b", "0", ",", ":", "{", "[{", "\"", ";junk=99999999"];
+
+fn huge() -> BoxedStrategy<Huge> {
+    let n_entries = entry_points().len() as u8;
+    (
+        codec::val(),
+        any::<bool>(),
+        0u8..14,
+        prop_oneof![2 => 1_000u32..6_000, 2 => 6_000u32..40_000, 1 => 40_000u32..130_000],
+        any::<u16>(),
+        proptest::option::weighted(0.1, 0..n_entries),
+    )
+        .prop_map(|(base, json, token, count, at, cross)| Huge { base, json, token, count, at, cross })
+        .boxed()
+}
+
+pub fn materialise_huge(h: &Huge, n_entries: usize) -> (usize, String) {
+    let (t, j, te, je) = encodings(&h.base);
+    let (text, entry) = match (h.json, t) {
+        (false, Some(t)) => (t, te),
+        _ => (j, je),
+    };
+    let entry = h.cross.map(|c| c as usize % n_entries).unwrap_or(entry);
+    let tok = HUGE_TOKENS[h.token as usize % HUGE_TOKENS.len()];
+    let cs: Vec<char> = text.chars().collect();
+    let i = pos_of(cs.len(), h.at);
+    let mut out = String::with_capacity(text.len() + tok.len() * h.count as usize);
+    out.extend(cs[..i].iter());
+    let reps = (h.count as usize).min(600_000 / tok.len().max(1));
+    for _ in 0..reps {
+        out.push_str(tok);
+    }
+    out.extend(cs[i..].iter());
+    (entry, out)
+}
+
+/// Parse `text` with entry point `entry` in a child process. Ok(()) = returned Ok or Err;
+/// Err(reason) = panicked or aborted. A child that does not finish in time is not judged.
+pub fn parse_in_child(entry: usize, text: &str, tag: &str) -> Result<bool, String> {
+    use std::io::Read;
+    let dir = std::env::temp_dir().join("plv-c18");
+    let _ = std::fs::create_dir_all(&dir);
+    let path = dir.join(format!("{}-{}.bin", std::process::id(), tag));
+    let mut bytes = vec![entry as u8];
+    bytes.extend_from_slice(text.as_bytes());
+    std::fs::write(&path, &bytes).map_err(|e| format!("cannot write child input: {e}"))?;
+    let exe = std::env::current_exe().map_err(|e| e.to_string())?;
+    let mut child = std::process::Command::new(exe)
+        .arg("c18-one")
+        .arg(&path)
+        .stdout(std::process::Stdio::null())
+        .stderr(std::process::Stdio::piped())
+        .spawn()
+        .map_err(|e| format!("cannot spawn child: {e}"))?;
+    // bounded wait (steps of 5 ms, at most 60 s); a timeout is "not judged", never a violation
+    let mut waited = 0u32;
+    let status = loop {
+        match child.try_wait() {
+            Ok(Some(s)) => break Some(s),
+            Ok(None) => {
+                if waited > 12_000 {
+                    let _ = child.kill();
+                    let _ = child.wait();
+                    break None;
+                }
+                std::thread::sleep(std::time::Duration::from_millis(5));
+                waited += 1;
+            }
+            Err(_) => break None,
+        }
+    };
+    let _ = std::fs::remove_file(&path);
+    let status = match status {
+        Some(s) => s,
+        None => return Ok(false),
+    };
+    if status.success() {
+        return Ok(true);
+    }
+    let mut err = String::new();
+    if let Some(mut e) = child.stderr.take() {
+        let _ = e.read_to_string(&mut err);
+    }
+    let err: String = err.lines().rev().take(3).collect::<Vec<_>>().join(" | ");
+    use std::os::unix::process::ExitStatusExt;
+    match (status.code(), status.signal()) {
+        (_, Some(sig)) => Err(format!("the process was killed by signal {sig} (abort / stack overflow): {err}")),
+        (Some(c), _) => Err(format!("panicked (child exit code {c}): {err}")),
+        _ => Err(format!("child ended abnormally: {err}")),
+    }
+}
+
+thread_local! {
+    static HUGE_SEQ: std::cell::Cell<u64> = const { std::cell::Cell::new(0) };
+}
+
+pub fn eval_huge(h: &Huge, eps: &[EntryPoint], st: &mut Stats) -> Result<(), String> {
+    let (e, text) = materialise_huge(h, eps.len());
+    let seq = HUGE_SEQ.with(|c| {
+        c.set(c.get() + 1);
+        c.get()
+    });
+    let tag = format!("{:?}-{}", std::thread::current().id(), seq).replace(['(', ')'], "");
+    st.count("huge/inputs");
+    st.add("huge/bytes", text.len() as u64);
+    match parse_in_child(e, &text, &tag) {
+        Ok(true) => {
+            if st.nontrivial(hash_of(h)) && st.want_sample() {
+                st.sample(json!({"entry": eps[e].name, "huge_input": format!("{} bytes: a valid encoding with {:?} x {} inserted", text.len(), HUGE_TOKENS[h.token as usize % HUGE_TOKENS.len()], h.count), "outcome": "returned"}));
+            }
+            Ok(())
+        }
+        Ok(false) => {
+            st.count("huge/child_timeout_not_judged");
+            Ok(())
+        }
+        Err(m) => Err(format!(
+            "{} on a {}-byte input (a valid encoding with {:?} repeated {} times inserted at char {}): {}",
+            eps[e].name,
+            text.len(),
+            HUGE_TOKENS[h.token as usize % HUGE_TOKENS.len()],
+            h.count,
+            pos_of(text.chars().count(), h.at),
+            m
+        )),
+    }
+}
+
 pub fn run(cfg: &RunCfg) -> Report {
     let mut rep = Report::new(
         "C18",
         "exploration",
-        "strings fed to all 13 FromStr implementations and 18 JSON entry points (serde_json::from_str into every serde type, PriceLevelSnapshotPackage::from_json, PriceLevel::from_snapshot_json): (i) a valid encoding printed by the library, mutated by 1-4 character-level edits (delete, insert, substitute, duplicate a span, truncate, replace a number by an out-of-range one) with a palette containing multi-byte and case-mapping characters, sometimes fed to another type's parser; (ii) token soup from the grammars' own keys, separators, type names and huge numbers; (iii) arbitrary Unicode. Oracle: the call returns Ok or Err (catch_unwind), never panics; inputs <= 4 KB. Non-trivial = input that differs from every valid base encoding and gets past the first format test (has the type prefix / is syntactically valid JSON); distinct = hash of (entry point, input). The thorough tier adds a coverage-guided libFuzzer campaign (fuzz target parse_any).",
+        "strings fed to all 13 FromStr implementations and 18 JSON entry points (serde_json::from_str into every serde type, PriceLevelSnapshotPackage::from_json, PriceLevel::from_snapshot_json): (i) a valid encoding printed by the library, mutated by 1-4 character-level edits (delete, insert, substitute, duplicate a span, truncate, replace a number by an out-of-range one) with a palette containing multi-byte and case-mapping characters, sometimes fed to another type's parser; (ii) token soup from the grammars' own keys, separators, type names and huge numbers; (iii) arbitrary Unicode; (iv) huge inputs: a valid encoding with one token ('[', '[[', ';a=b', a multi-byte character, ...) repeated 1 000 - 130 000 times inserted at a generated position (up to 600 KB), each parsed in a child process so that a stack overflow or abort is observed. Oracle: the call returns Ok or Err (catch_unwind / child exit status), never panics or aborts; inputs of (i)-(iii) <= 4 KB. Non-trivial = input that differs from every valid base encoding and gets past the first format test (has the type prefix / is syntactically valid JSON); distinct = hash of (entry point, input). The thorough tier adds a coverage-guided libFuzzer campaign (fuzz target parse_any).",
     );
     rep.assumptions = vec![
         "hangs are not detected by this oracle (a wall-clock watchdog around the whole check reports them as inconclusive, exit 2)".into(),
@@ -368,6 +514,10 @@ pub fn run(cfg: &RunCfg) -> Report {
     let eps = entry_points();
     let n = cfg.cases(2_000_000, 60_000_000);
     rep.absorb("c18_input", explore(cfg, "C18", n, input, |i: &Input, st| eval(i, &eps, st)));
+    if !rep.failed() {
+        let n = cfg.cases(2_400, 60_000);
+        rep.absorb("c18_huge", explore(cfg, "C18-huge", n, huge, |h: &Huge, st| eval_huge(h, &eps, st)));
+    }
     rep
 }
 
@@ -383,8 +533,12 @@ pub fn replay(v: &serde_json::Value) -> Result<(), String> {
             Err(m) => Err(format!("{}({:?}) panicked: {}", ep.name, text, m)),
         };
     }
-    let i: Input = load_case(v)?;
     let eps = entry_points();
     let mut st = Stats::default();
+    if v["engine"] == "c18_huge" {
+        let h: Huge = load_case(v)?;
+        return eval_huge(&h, &eps, &mut st);
+    }
+    let i: Input = load_case(v)?;
     eval(&i, &eps, &mut st)
 }
